@@ -106,6 +106,22 @@ def run(prop, tier, seed, known):
                 for kind, src in sources('\n'.join(broken) + '\n'):
                     expect('load_intervals with an unparsable number', lambda: IO.load_intervals(src, delimiter=dre),
                            lambda r: None if isinstance(r, ValueError) and ':%d:' % (bad_row + 1) in str(r) else 'expected ValueError naming row %d, got %r' % (bad_row + 1, r))
+            # the comment marker is a regular expression (documented): alternatives and classes must work in every loader
+            for cre, marks in (('[#%]', ['#', '%']), ('#|;', ['#', ';']), (r'\s*//', ['//', '  //'])):
+                ev2 = sorted(floats(3))
+                rows2 = [floats(rng.randint(0, 2)) for _ in ev2]
+                body = []
+                for t, row in zip(ev2, rows2):
+                    body.append('%s this is a comment' % rng.choice(marks))
+                    body.append(' '.join([fmt(t)] + [fmt(v) for v in row]))
+                text = '\n'.join(body) + '\n'
+                for kind, src in sources(text):
+                    expect('load_ragged_time_series(comment=%r)' % cre, lambda: IO.load_ragged_time_series(src, comment=cre),
+                           lambda r: None if isinstance(r, tuple) and r[0].tolist() == ev2 and [x.tolist() for x in r[1]] == rows2 else 'got %r wrote %r %r' % (r, ev2, rows2))
+                text = ''.join('%s a comment\n%s\n' % (rng.choice(marks), fmt(t)) for t in ev2)
+                for kind, src in sources(text):
+                    expect('load_events(comment=%r)' % cre, lambda: IO.load_events(src, comment=cre),
+                           lambda r: None if isinstance(r, np.ndarray) and r.tolist() == ev2 else 'got %r wrote %r' % (r, ev2))
             # content that parses but violates conventions -> returned (with a warning), not an exception
             for kind, src in sources('2.0\n1.0\n'):
                 expect('load_events with decreasing times', lambda: IO.load_events(src), lambda r: None if isinstance(r, np.ndarray) and r.tolist() == [2.0, 1.0] else 'got %r' % (r,))
